@@ -8,11 +8,13 @@ From NV Require Import Base.Bytes Isa.Codec gen.IsaTable Lang.Ast Lang.Ref Back.
 Import ListNotations.
 
 Definition user_name (x : ident) : Prop := (x < HIDDEN)%N.
-(* ints are int64 values; an array holds int64 values and its length is one too (every array comes from a literal) *)
+(* ints are int64 values; an array holds int64 values and its length is one too (every array comes from a literal);
+   a string is at most 1 MiB long (literals by expr_ok, concatenations by Ast.concat_v) *)
 Definition val_ok (v : value) : Prop :=
   match v with
   | VInt z => in64 z = true
   | VArr l => Forall (fun z => in64 z = true) l /\ in64 (Z.of_nat (length l)) = true
+  | VStr s => (Z.of_nat (length s) <= str_max)%Z          (* strings stay inside the common domain of the engines: at most 1 MiB *)
   | _ => True
   end.
 
